@@ -251,7 +251,7 @@ func genRec(r *core.Rng, format string, huge bool) *WriteRec {
 			Strand: core.Pick(r, []string{"+", "-", "."}), ThickStart: r.Intn(5000), ThickEnd: r.Intn(5000),
 			ItemRGB: [3]int{r.Intn(256), r.Intn(256), r.Intn(256)}, BlockCount: bc}
 		if big > 0 {
-			bc = big / 5 // thousands of blocks: an output beyond any small internal buffer
+			bc = big / 12 // hundreds of blocks: an output beyond a small internal buffer
 			b.BlockCount = bc
 		}
 		for i := 0; i < bc; i++ {
